@@ -266,7 +266,7 @@ def conditions(tier, seed, active):
                             timeout=1800, tags=[], witness=[]))
         for k in cand.keywords(d):
             for kind in kinds_for(d, k):
-                if quick and rng.random() < (0.65 if kind in CHEAP_KINDS else 0.95):
+                if quick and (kind not in CHEAP_KINDS or rng.random() < 0.65):
                     continue
                 c("kw/%s/%s/d%d" % (k, kind, d), "single", dict(d=d, k=k, kind=kind))
                 if rng.random() < (0.015 if quick else 0.1):
@@ -285,7 +285,7 @@ def conditions(tier, seed, active):
                         continue
                     if d == 3 and ((k1 in ("type", "disallow") and a in ("str", "arr_str")) or (k2 in ("type", "disallow") and b in ("str", "arr_str"))):
                         continue      # Draft 3 accepts any string as a type name: those are catalogue members ("typename"), never free strings
-                    if quick and (a not in CHEAP_KINDS or b not in CHEAP_KINDS or rng.random() < 0.65):
+                    if quick and (a not in CHEAP_KINDS or b not in CHEAP_KINDS or (a == b == "subschema") or rng.random() < 0.65):
                         continue
                     if not quick and (a not in CHEAP_KINDS or b not in CHEAP_KINDS) and rng.random() < 0.7:
                         continue
